@@ -140,6 +140,11 @@ def run(c):
                                input=inp(si), observed="nil error", expected=(single or {}).get("load"))
                         prev = s
                         continue
+                    if op["filter"] >= 0:
+                        rejected = [g["name"] for g in s["groups"] if g not in prev["groups"] and g["name"] not in d["filters"][op["filter"]]]
+                        if rejected:
+                            c.fail("oracle", "a group rejected by GroupFilter is listed by LoadedGroups() (it occupies its name)", input=inp(si),
+                                   observed=rejected, expected="only groups the filter accepted")
                     want = sorted(names_prev + sorted((g["name"], g["file"], g["line"]) for g in single["groups"]))
                     if names_now != want or len(set(n for n, _, _ in names_now)) != len(names_now):
                         c.fail("oracle", "LoadedGroups() is not the union of the accepted groups of the successful calls", input=inp(si),
